@@ -1,6 +1,7 @@
 package checks
 
 import (
+	"strings"
 	"fmt"
 	"math/rand"
 	"os"
@@ -67,7 +68,8 @@ func (c *c04) Cases(tier string, seed int64) []core.Case {
 	return cs
 }
 
-var p1Names = []string{"a.txt", "data.bin", "file one", "ünï.dat", "日本語.txt", "grin-😀.dat", "𝔘𝔫𝔦.bin", "UPPER", "x.y.z", "tab\tname", "Ωmega", "p01", "set.par.txt"}
+var p1Names = []string{"a.txt", "data.bin", "file one", "ünï.dat", "日本語.txt", "grin-😀.dat", "𝔘𝔫𝔦.bin", "UPPER", "x.y.z", "tab\tname", "Ωmega", "p01", "set.par.txt",
+	"back\\slash.dat", "100%.dat", strings.Repeat("n", 125), strings.Repeat("n", 126), strings.Repeat("long name ", 20), strings.Repeat("世", 80)}
 
 func genP1Files(rng *rand.Rand, nf int) []scen.File {
 	var fs []scen.File
@@ -114,6 +116,10 @@ type p1env struct {
 	paths          []string
 	nv             int
 	base           string
+	// bystander[i] is the state kept for an entry that is NOT saved in the
+	// parity set: "absent" or "altered" (such files are none of the
+	// archive's business)
+	bystander map[int]string
 }
 
 func (e *p1env) close() { os.RemoveAll(e.root) }
@@ -123,7 +129,7 @@ func newP1Env(files []scen.File, nv int, create bool) (*p1env, error) {
 	if err != nil {
 		return nil, err
 	}
-	e := &p1env{root: root, dir: filepath.Join(root, "set"), files: files, nv: nv}
+	e := &p1env{root: root, dir: filepath.Join(root, envDirName()), files: files, nv: nv}
 	e.base = p1Bases[p1BaseCounter%len(p1Bases)]
 	p1BaseCounter++
 	e.idx = filepath.Join(e.dir, e.base+".par")
@@ -143,6 +149,23 @@ func newP1Env(files []scen.File, nv int, create bool) (*p1env, error) {
 		if cerr != nil {
 			return e, fmt.Errorf("Create: %w", cerr)
 		}
+		// Create's postcondition: the index and volumes 1..nv exist under
+		// their PAR 1.0 names
+		want := []string{e.idx}
+		for v := 1; v <= nv; v++ {
+			want = append(want, e.volPath(v))
+		}
+		for _, w := range want {
+			if _, err := os.Stat(w); err != nil {
+				var have []string
+				if des, derr := os.ReadDir(e.dir); derr == nil {
+					for _, de := range des {
+						have = append(have, de.Name())
+					}
+				}
+				return e, fmt.Errorf("Create returned nil but did not write %q (directory holds %q)", filepath.Base(w), have)
+			}
+		}
 	}
 	return e, nil
 }
@@ -152,7 +175,7 @@ func (e *p1env) volPath(v int) string {
 }
 
 // index base names, some ending in characters of ".par"
-var p1Bases = []string{"arch", "data", "backup", "par", "a.p", "extra.", "set r"}
+var p1Bases = []string{"arch", "data", "backup", "par", "a.p", "extra.", "set r", "backup 100%", "my%20file", "%d%s%"}
 var p1BaseCounter int
 
 // p1Damage describes one damage pattern.
@@ -165,6 +188,14 @@ func (e *p1env) apply(d p1Damage, rng *rand.Rand) {
 	for i, f := range e.files {
 		kind, isBad := d.bad[i]
 		p := e.paths[i]
+		if st := e.bystander[i]; st != "" && !isBad {
+			if st == "absent" {
+				os.Remove(p)
+			} else {
+				os.WriteFile(p, append([]byte("altered "), f.Data...), 0644)
+			}
+			continue
+		}
 		if !isBad {
 			os.WriteFile(p, f.Data, 0644)
 			continue
